@@ -71,7 +71,7 @@ def generate(prop, seed, tier):
         spec['nts']['U'] = {'type': []}
     pres = [build.random_presentation(spec, g, allow_rename=False, allow_domperm=False, via=('api',)) for _ in range(2)]
     hist = {'first_rules': sorted(g.sample(range(len(spec['rules'])), g.randrange(0, len(spec['rules']) + 1))),
-            'new_start': g.random() < 0.4, 'ops': [g.choice(['add_rule', 'set_start', 'query', 'edit_rhs', 'remove_rhs_edge', 'label_without_edge']) for _ in range(g.randrange(1, 6))],
+            'new_start': g.random() < 0.4, 'ops': [g.choice(['add_rule', 'set_start', 'query', 'edit_rhs', 'remove_rhs_edge', 'label_without_edge', 'share_rhs']) for _ in range(g.randrange(1, 6))],
             'choices': [g.randrange(1 << 16) for _ in range(8)]}
     return {'engine': 'sccsim', 'prop': prop, 'seed': seed, 'n': n, 'edges': edges, 'orders': orders, 'naming': naming,
             'spec': spec, 'pres': pres, 'hist': hist, 'deep': deep}
@@ -351,6 +351,14 @@ def run_history(F, U, SP, case, c, log):
                 r, e = cands[ch[k % 8] % len(cands)]
                 r.rhs.remove_edge(e)
                 c.inc('hist.remove_rhs_edge')
+        elif op == 'share_rhs':
+            # one Graph object serves as the right-hand side of rules of two different nonterminals (legal: same type)
+            cands = [(r, nt) for r in fgg.all_rules() for nt in fgg.nonterminals()
+                     if nt != r.lhs and nt.type == r.lhs.type and any(e.label.is_nonterminal for e in r.rhs.edges())]
+            if cands:
+                r, nt = cands[ch[k % 8] % len(cands)]
+                fgg.add_rule(F.HRGRule(nt, r.rhs))
+                c.inc('hist.share_rhs')
         elif op == 'label_without_edge':
             rules = fgg.all_rules()
             nts = list(fgg.nonterminals())
